@@ -976,6 +976,17 @@ class ExprMixin(object):
             finally:
                 self.spec_mode -= 1
             cond = zand(conds)
+            from . import rely as _rely
+            if _rely.is_pending(fval) and fval.py[1] == 'call':
+                if g.ifs:
+                    self.oos('filtered comprehension of coroutine calls', e)
+                p = fval.py[2]
+                st_c, env_j = self.bind_call(st_b, p['c'], p['args'], p['kw'], p['node'], p['recv'], p['star'])
+                if env_j is None:
+                    self.oos('cannot bind the coroutine call inside the comprehension', e)
+                out += self.ok(st, mk_py(('pending', 'list', {'c': p['c'], 'len': n, 'idx': j,
+                                                              'env': env_j, 'node': e})))
+                continue
             if len(zsorts(fval.ty)) != 1:
                 self.oos('comprehension element of sort %r' % (fval.ty,), e)
             (es,) = zsorts(fval.ty)
